@@ -1,0 +1,71 @@
+//! Verification hook for C14 (only compiled with `--cfg redb_verif`): drives the real allocation
+//! bookkeeping of `TransactionalMemory` (allocate_helper / allocate_helper_retry / grow, free_helper,
+//! mark_page_allocated, try_shrink) on an in-memory backend and exposes the allocator state.
+//! Every function delegates to the real code; nothing here changes behaviour of the crate.
+
+use crate::tree_store::page_store::InMemoryBackend;
+use crate::tree_store::page_store::base::{Page, PageNumber, PageTracker};
+use crate::tree_store::page_store::page_manager::TransactionalMemory;
+use alloc::boxed::Box;
+use alloc::format;
+use alloc::string::String;
+use alloc::vec::Vec;
+
+pub struct VAllocMem {
+    mem: TransactionalMemory,
+    page_size: usize,
+}
+
+impl VAllocMem {
+    /// Fresh database memory on an `InMemoryBackend` with an empty (freshly reset) allocator state
+    pub fn new(page_size: usize, region_size: u64) -> Result<Self, String> {
+        let mem = TransactionalMemory::new(
+            Box::new(InMemoryBackend::new()),
+            true,
+            page_size,
+            Some(region_size),
+            0,
+            false,
+        )
+        .map_err(|e| format!("{e}"))?;
+        mem.reset_allocator_state().map_err(|e| format!("{e}"))?;
+        Ok(Self { mem, page_size })
+    }
+
+    /// `allocate_helper` for a block of `2^order` pages: (region, page index, order)
+    pub fn allocate(&self, order: u8, lowest: bool) -> Result<(u32, u32, u8), String> {
+        let page = self
+            .mem
+            .allocate_helper(self.page_size << order, lowest)
+            .map_err(|e| format!("{e}"))?;
+        let n = page.get_page_number();
+        drop(page);
+        Ok((n.region, n.page_index, n.page_order))
+    }
+
+    /// `free` (= `free_helper`)
+    pub fn free(&self, region: u32, page_index: u32, order: u8) {
+        self.mem.free(
+            PageNumber::new(region, page_index, order),
+            &PageTracker::ignore(),
+        );
+    }
+
+    /// `mark_page_allocated`: true iff it returned Ok
+    pub fn record_alloc(&self, region: u32, page_index: u32, order: u8) -> bool {
+        self.mem
+            .mark_page_allocated(PageNumber::new(region, page_index, order))
+            .is_ok()
+    }
+
+    /// the private `try_shrink`
+    pub fn try_shrink(&self, force: bool) -> Result<bool, String> {
+        self.mem.verif_try_shrink(force).map_err(|e| format!("{e}"))
+    }
+
+    /// (serialized region allocators, serialized region tracker,
+    ///  (full region pages, number of full regions, trailing region pages))
+    pub fn allocator_state(&self) -> (Vec<Vec<u8>>, Vec<u8>, (u32, u32, Option<u32>)) {
+        self.mem.verif_allocator_state()
+    }
+}
